@@ -619,4 +619,71 @@ mod verif_kani {
     #[kani::proof]
     #[kani::unwind(9)]
     fn c42_rewrite_tree4_bounded() { check_du(true); }
+
+    // ------------------------------------------------------------------
+    // bounded: TreeNodeContainer impls (Vec, Option, Box, 3-tuple) -- the sibling iteration used by
+    // Expr / LogicalPlan `apply_children` / `map_children` (a separate copy of the loop in apply_until_stop)
+    // ------------------------------------------------------------------
+    #[derive(Debug, Clone, PartialEq, Default)]
+    struct L(u8);
+    impl<'a> TreeNodeContainer<'a, L> for L {
+        fn apply_elements<F: FnMut(&'a L) -> Result<TreeNodeRecursion>>(&'a self, mut f: F) -> Result<TreeNodeRecursion> { f(self) }
+        fn map_elements<F: FnMut(L) -> Result<Transformed<L>>>(self, mut f: F) -> Result<Transformed<L>> { f(self) }
+    }
+    fn container() -> (Vec<L>, Option<L>, Box<L>) { (vec![L(0), L(1)], Some(L(2)), Box::new(L(3))) }
+
+    #[kani::proof]
+    #[kani::unwind(6)]
+    fn c42_containers_apply_bounded() {
+        let c = container();
+        let d: [u8; 4] = kani::any();
+        let mut log = [255u8; 4];
+        let mut n = 0usize;
+        let res = c.apply_elements(|l: &L| { log[n] = l.0; n += 1; Ok(dec3(d[l.0 as usize])) });
+        // reference: siblings in order; continue on Continue|Jump, stop at the first Stop; result = last decision
+        let mut exp = [255u8; 4];
+        let mut m = 0usize;
+        let mut last = 0u8;
+        let mut i = 0;
+        while i < 4 { exp[m] = i as u8; m += 1; last = d[i] % 3; if last == 2 { break; } i += 1; }
+        assert!(n == m && log == exp, "C42.containers.apply.siblings_in_order_until_stop");
+        assert!(matches!(&res, Ok(r) if *r == dec3(last)), "C42.containers.apply.result_is_last_decision");
+        kani::cover!(n == 4 && last == 1);
+        kani::cover!(n == 2);
+        std::mem::forget(res);
+        std::mem::forget(c);
+    }
+
+    #[kani::proof]
+    #[kani::unwind(6)]
+    fn c42_containers_map_bounded() {
+        let d: [u8; 4] = kani::any();
+        let ch: [bool; 4] = kani::any();
+        let mut calls = 0usize;
+        let res = container().map_elements(|l: L| {
+            assert!(l.0 as usize == calls, "C42.containers.map.in_order_each_once");
+            calls += 1;
+            let ix = l.0 as usize;
+            Ok(Transformed::new(if ch[ix] { L(l.0 + 10) } else { l }, ch[ix], dec3(d[ix])))
+        });
+        let mut m = 0usize;
+        let mut last = 0u8;
+        let mut any = false;
+        let mut exp = [0u8, 1, 2, 3];
+        let mut i = 0;
+        while i < 4 { m += 1; if ch[i] { exp[i] += 10; any = true; } last = d[i] % 3; if last == 2 { break; } i += 1; }
+        assert!(calls == m, "C42.containers.map.stops_at_first_stop");
+        match &res {
+            Ok(t) => {
+                assert!(t.data.0.len() == 2 && t.data.0[0].0 == exp[0] && t.data.0[1].0 == exp[1]
+                        && t.data.1 == Some(L(exp[2])) && t.data.2.0 == exp[3], "C42.containers.map.exactly_the_replacements");
+                assert!(t.transformed == any, "C42.containers.map.changed_flag_is_or");
+                assert!(t.tnr == dec3(last), "C42.containers.map.result_is_last_decision");
+            }
+            Err(_) => assert!(false, "C42.containers.map.no_error"),
+        }
+        kani::cover!(calls == 4 && any);
+        kani::cover!(calls == 1);
+        std::mem::forget(res);
+    }
 }
